@@ -45,13 +45,13 @@ CHECKS["C10"] = ("exhaustive enumeration of the syntax.md shape catalog in both 
     "The complete finite shape set (about 19 000 shapes x 2 cases, 132 data forms x 2, print forms x 4 radices x 2 cases): whenever the assembler accepts, the data loader / interpreter / printer must accept every emitted line; documented shapes the assembler rejects are reported too.",
     "DESIGN.md section 6 C10")
 CHECKS["C11"] = ("exhaustive enumeration of every single spelling deviation (case per keyword token, radix per constant incl. negative decimal / OFFSET / leading zeros, separator per gap) of every catalog shape: relational oracle (identical emitted list) plus semantic oracle (emitted line executed on the real Interpreter equals the reference effect of the AST instruction)",
-    "About one million respellings of 19 000 shapes must assemble to the identical instruction list; each canonical line is executed on two distinguishing states and compared in full with the reference for the AST instruction; ordered triples keep order and count; label case sensitivity; comment placements through the real binary.",
+    "About one million respellings of 19 000 shapes must assemble to the identical instruction list; each canonical line is executed on two distinguishing states and compared in full with the reference for the AST instruction; ordered triples keep order and count; label case sensitivity; comment placements through the real binary. OFFSET in place of a number: 35 constant positions x every label offset of the class x 3 data layouts must assemble to what the decimal number gives.",
     "DESIGN.md section 6 C11")
 CHECKS["C12"] = ("small-scope exhaustive enumeration of all SET/DB/DW sequences up to length 3 (4 in thorough) over a 45-item alphabet, assembled by the real Preprocessor and loaded by the real DataParser; whole-memory comparison with an independently computed image; every label checked three ways",
     "All definition sequences of the bound (values at the signed/unsigned extremes, counts 0..65535, strings, segments that wrap at 1 MB): the whole 1 MB equals the reference image, every label resolves to its first byte via the label map, via OFFSET and via a load through the label operand; more than 64 KiB per segment must be diagnosed; DS=0 at start through the CLI.",
     "DESIGN.md section 6 C12")
 CHECKS["C13"] = ("exhaustive enumeration of every macro use graph over up to 3 (4) macros plus parameter-name/template/argument-kind products; differential oracle: real Preprocessor on the macro program vs. real Preprocessor on the reference (textual, whole-word) expansion; deep chains through the real binary in child processes",
-    "All 2^(n*n) use graphs for n<=3 macros (n=4 in thorough) used from top level and from a procedure: acyclic ones must emit exactly the hand-expanded body, cyclic/unknown ones must be refused with a diagnostic at a use site; colliding parameter names x 9 body templates x 16 argument kinds; by-name passing; chains to depth 64 exactly and to 4096 without abort. Plus use sequences over empty/blank bodies, macros with 9-13 parameters, DS/SS-override arguments, unsigned-only slots, argument substitution inside procedures.",
+    "All 2^(n*n) use graphs for n<=3 macros (n=4 in thorough) used from top level and from a procedure: acyclic ones must emit exactly the hand-expanded body, cyclic/unknown ones must be refused with a diagnostic at a use site; colliding parameter names x 9 body templates x 16 argument kinds; by-name passing; chains to depth 64 exactly and to 4096 without abort. Plus use sequences over empty/blank bodies, macros with 9-13 parameters, DS/SS-override arguments, unsigned-only slots, argument substitution inside procedures. Redefinition histories (every sequence of up to 4 / 5 use and redefinition events against the bodies current at each use written in place), definitions in five layouts, the parameter name _.",
     "DESIGN.md section 6 C13")
 CHECKS["C14"] = ("exhaustive enumeration of every applicable single semantic mutation (about 190 invalid lines x insertion positions, structural mutations, all unsupported INT numbers) of verified-valid base programs; each mutant checked at library level and through the real CLI binary",
     "Every mutant must be refused: Preprocessor Err or the driver-level label/start checks, and on the real binary a non-empty diagnostic with no program output, prompt or interrupt output; base programs are first verified to run and print so that silence means refusal.",
@@ -60,16 +60,16 @@ CHECKS["C17"] = ("bounded-exhaustive enumeration of machine states (register rot
     "Every register holds every lattice value once, every combination of the nine flags, ranges of length 0..64 at 8 starts incl. the top of memory in both absolute forms and DS-relative for DS over the segment lattice (incl. ranges leaving the space and backwards ranges, which must be reported), constants in all radices and beyond 2^20 / 2^64; the same commands typed at INT 3, -i and trap-flag prompts.",
     "DESIGN.md section 6 C17")
 CHECKS["C18"] = ("bounded-exhaustive enumeration of (interrupt, AH) x register lattices x buffer placements (incl. crossing 2^20 and 16-bit offset wrap) x capacities x stdin shapes (closed, empty, shorter, equal, longer, no newline, two lines, 300 characters, UTF-8), every unsupported AH 0..255 for both interrupts, and all ordered pairs of services, each run through the real CLI binary with scripted stdin; service output matched byte for byte, registers/flags/marker windows parsed back from print statements",
-    "All supported services over AL/DL/CX/DX/BP/segment lattices with buffers ending at 0xFFFFF and wrapping, capacities 0/1/5/255, nine stdin shapes incl. end of input; every other AH value for INT 10h and INT 21h must be reported with the right line and stop the program; all 25 service pairs share one stdin.",
+    "All supported services over AL/DL/CX/DX/BP/segment lattices with buffers ending at 0xFFFFF and wrapping, capacities 0/1/5/255, nine stdin shapes incl. end of input; every other AH value for INT 10h and INT 21h must be reported with the right line and stop the program; all 25 service pairs share one stdin. Service output followed directly by whatever ends the run (8 endings), services run with IF/DF/CF set, input lines with white space at either end, 13 KB of input read in a loop, and every reading run repeated with the same input delivered in pieces.",
     "DESIGN.md section 6 C18")
 CHECKS["C20"] = ("deviation-bounded exhaustive exploration of prompt scripts on the real CLI binary: for every (program, stepping mode) the default script answers every read with n; ALL scripts with at most d deviations (alternative advancing answers, non-advancing answers inserted, terminating answers, end of input at every read) are run; stdout matched event by event against the reference interpreter, plus a relational oracle (stepped output minus prompt artefacts equals the plain run)",
-    "10 (thorough 12) terminating programs x stepping by -i, by POPF-set trap flag at position k, by INT 3 at position k and everywhere; complete script sets to 1 or 2 (thorough 3) deviations per pair; exactly one prompt per executed instruction naming its line, prints answered without advancing, quit and end of input terminate, no script spins or aborts (watchdog, output cap).",
+    "10 (thorough 12) terminating programs x stepping by -i, by POPF-set trap flag at position k, by INT 3 at position k and everywhere; complete script sets to 1 or 2 (thorough 3) deviations per pair; exactly one prompt per executed instruction naming its line, prints answered without advancing, quit and end of input terminate, no script spins or aborts (watchdog, output cap). Programs that end in a divide error, an unsupported service, their own hlt, and a program with breakpoints of its own run under every stepping mode.",
     "DESIGN.md section 6 C20")
 CHECKS["C16"] = ("bounded-exhaustive enumeration of program templates (item kind x placement) x layouts (filler lines, comments, final newline) with generator-known token positions: library-level source-map check on the real Preprocessor, every run-time message through the real CLI binary (plain and -i), and every single-token corruption (invalid character, unexpected token, truncation) at every token position plus semantic errors at first/middle/last line, with the reported line, column and text compared with the generator-known position",
     "34 templates (print, INT 3, divide error, unsupported AH x first/middle/last line, inside procedures, macro bodies, nested macros; loops) x 10 layouts; every emitted instruction maps into its source line (outermost macro use, closing brace for the implied ret); all messages cite the right line number and text; about 11 000 corrupted files: the diagnostic cites the line, column and text of the offending token, also on a last line without newline.",
     "DESIGN.md section 6 C16")
 CHECKS["C19"] = ("exhaustive enumeration of all iteration orders of the undefined-label hash set (hook) on the real CLI binary; explicit-state exploration of all pairs of instruction streams x all interleavings on two machines sharing one real Interpreter object versus isolated runs; exhaustive parser histories (all line sequences up to a bound followed by each probe) on the real Preprocessor, DataParser, Interpreter and, through prompt sessions of the binary, the print reader; relational oracle throughout",
-    "38 multi-error programs under all k! iteration orders (k<=4) must print identical output; a new machine is zero except FLAGS/CS after any history; 67 000 stream pairs x all interleavings (1.1 million runs) leave each machine as when run alone; 6 700 history/probe combinations per tier answer like fresh parser objects; reruns in separate processes and an 8-thread smoke run are repetition and labelled so.",
+    "38 multi-error programs under all k! iteration orders (k<=4) must print identical output; a new machine is zero except FLAGS/CS after any history; 67 000 stream pairs x all interleavings (1.1 million runs) leave each machine as when run alone; 6 700 history/probe combinations per tier answer like fresh parser objects; reruns in separate processes and an 8-thread smoke run are repetition and labelled so. Sixteen refused programs with several macros / labels / procedures / data labels each (mutual recursion, no start, duplicates, unknown names with equally near known names) rerun 8 times in separate processes.",
     "DESIGN.md section 6 C19")
 CHECKS["C15"] = ("bounded-exhaustive enumeration of input texts: all strings up to length 3 (4) over a 44-character alphabet, all sequences of up to 3 tokens over 128 grammar terminals, the complete 1-edit neighbourhoods of 13 seed programs (2-edit for short seeds), 195 pathological size/shape inputs; each text is given to the real Preprocessor / DataParser / Interpreter in child processes of the harness (abnormal ends bisected to the culprit), to the print reader through prompt sessions of the real binary, and as source files to the real binary (all byte strings up to length 1-2, families plain and -i, invalid UTF-8, 1-edit neighbourhoods)",
     "2.9 million texts in-process, 90 000 prompt lines, 5 700 source files: every one must end with a result or a diagnostic - no panic, no signal, no watchdog expiry (unless the program itself loops), memory under a ceiling, and within each size family the cost per byte must not grow more than 5-fold from one size to the next.",
